@@ -321,6 +321,16 @@ func c14Corpus() []*c14Bundle {
 		mk("ij", "/** */\n{template .t}\n{$ij.foo}{$ij?.bar.baz}\n{/template}\n"),
 		mk("switch-two-defaults", "/** @param x */\n{template .t}\n{switch $x}{case 1}B{default}A{default}C{/switch}\n{/template}\n"),
 		mk("switch-default-first", "/** @param x */\n{template .t}\n{switch $x}{default}A{case 1, 2}B{/switch}\n{/template}\n"),
+		mk("int-member-length", "/** */\n{template .t}\n{length(5)}\n{/template}\n"),
+		mk("int-member-negative", "/** */\n{template .t}\n{length(-5)}\n{/template}\n"),
+		mk("int-member-strcontains", "/** */\n{template .t}\n{strContains(5, 'a')}\n{/template}\n"),
+		mk("int-member-func", "/** */\n{template .t}\n{length(bidiGlobalDir())}{length(strContains('a', 'b'))}\n{/template}\n"),
+		{Stream: "corpus:int-member-global", Files: []srcFile{{"corpus.soy", "{namespace corpus.c14}\n\n/** */\n{template .t}\n{length(G_NEG)}\n{/template}\n"}}, Globals: map[string]interface{}{"G_NEG": -5}},
+		mk("member-of-nonint", "/** @param a */\n{template .t}\n{length(1.5)}{length(-$a)}{length(not $a)}{length(isNonnull($a))}{isNonnull(5)}{length(round($a, 2))}{strContains(round($a), 'x')}{length(null)}{length('s')}{length([1])}\n{/template}\n"),
+		{Stream: "corpus:es6-import-collision", Files: []srcFile{
+			{"a.soy", "{namespace a}\n\n/** */\n{template .b__c}\nx\n{/template}\n"},
+			{"b.soy", "{namespace a__b}\n\n/** */\n{template .c}\ny\n{/template}\n"},
+			{"c.soy", "{namespace corpus.c14}\n\n/** */\n{template .t}\n{call a.b__c /}{call a__b.c /}\n{/template}\n"}}},
 		mk("switch-dup-case", "/** @param x */\n{template .t}\n{switch $x}{case 1}A{case 1}B{case 'a', 'a'}C{/switch}\n{/template}\n"),
 	}
 }
@@ -363,6 +373,7 @@ func c14Run(e *env, bundles []*c14Bundle) {
 		}
 		c14Node(e, units[i:j], fmt.Sprintf("b%d", i/batch))
 	}
+	c14WfNegatives(e)
 	e.res.Note("node %s compiled and ran the generated files with soyjs/lib/soyutils.js; no JavaScript grammar is formalised in Coq: syntactic validity rests on this run", "20")
 	_ = os.Stderr
 	_ = utf8.RuneError
